@@ -277,6 +277,13 @@ func runC05(c *core.Ctx) {
 			k.BoundaryFiles("blk/")
 			k.goit("add", "blk")
 		}
+		if w.Hist%6 == 5 {
+			// directories whose names are Goit's own directory name plus dots or blanks, or in another letter case
+			for _, p := range []string{".goit./c.txt", "lib/.goit./d.txt", ".goit /e.txt", ".GOIT/f.txt", ".goit.d/g.txt", "lib/.goit/h.txt"} {
+				w.Write(p, k.content())
+			}
+			k.goit("add", ".goit.", "lib", ".goit ", ".GOIT", ".goit.d")
+		}
 		if w.Hist%4 == 2 {
 			// names that end or begin with white space (a blank, U+3000, U+00A0), as the only / the last child of a tree:
 			// what is listed must be the complete name
